@@ -32,6 +32,21 @@ def consumers_table(repo):
     raise AnalysisError("Tokenizer.parse: consumers table not found")
 
 
+def _class_text_constants(repo):
+    """Text constants a pattern of the tokenizer may be assembled from: names bound once to a string literal at module level
+    or in the body of the Tokenizer class (``QUOTED_NAME = r"..."``), folded in order."""
+    env = {}
+    tree = repo.tree("tokenizer.py")
+    bodies = [tree.body] + [c.body for c in tree.body if isinstance(c, ast.ClassDef) and c.name == "Tokenizer"]
+    for body in bodies:
+        for st in body:
+            if isinstance(st, ast.Assign) and len(st.targets) == 1 and isinstance(st.targets[0], ast.Name):
+                v = try_const(st.value, env, default=None)
+                if isinstance(v, str):
+                    env[st.targets[0].id] = v
+    return env
+
+
 def check_reader_quoting(repo, rep, cons):
     """The reader's quoting of row/column names (CellRange.expand_ref) against what the tokenizer accepts.
 
@@ -43,7 +58,7 @@ def check_reader_quoting(repo, rep, cons):
     ex = repo.func("xrefs.py", "CellRange.expand_ref")
     regs = repo.module_assign("tokenizer.py", "Tokenizer.STRING_REGEXES")
     keys = [try_const(k) for k in regs.keys]
-    pat = try_const(regs.values[keys.index(Q)].args[0]) if Q in keys else None
+    pat = try_const(regs.values[keys.index(Q)].args[0], _class_text_constants(repo)) if Q in keys else None
     if not isinstance(pat, str):
         raise AnalysisError("Tokenizer.STRING_REGEXES: single-quote pattern is not a literal")
     rx = _re.compile(pat)
@@ -103,6 +118,19 @@ def check_reader_quoting(repo, rep, cons):
         opchars = set(ast.literal_eval(U(repo.module_assign("constants.py", "OPERATOR_PRECEDENCE"))).keys())
     except Exception as e:  # noqa: BLE001
         raise AnalysisError(f"constants.py: OPERATOR_PRECEDENCE is not a literal table ({e})") from e
+    # no character that made the reader quote a name on the confirmed tree has left the table (its keys serve two purposes:
+    # operator precedence and the quoting test; an operator the precedence code never looks up is still needed here)
+    import json as _json
+    import os as _os
+    try:
+        with open(_os.path.join(_os.path.dirname(_os.path.dirname(_os.path.abspath(__file__))), "reference", "tables.json"), encoding="utf-8") as fh_:
+            ref_ops = set(_json.load(fh_)["OPERATOR_PRECEDENCE_KEYS"])
+    except (OSError, KeyError, ValueError) as e:
+        raise AnalysisError(f"reference table of operator characters not readable: {e}") from e
+    gone = sorted(ref_ops - opchars)
+    rep.ob("C18.R4", trig[0], f"every operator character that made the reader quote a name still does ({len(ref_ops)} characters)", not gone,
+           "" if not gone else f"{gone} no longer make the reader quote a name: a header named 10{gone[0]} is printed bare and read as the name 10 followed by an operator "
+           "(it then selects another row or column, or none)", key="C18.R4@quoting:operator-set")
     hash_consumer = next((m for chars, m in cons if isinstance(chars, str) and "#" in chars), None)
     rejects = hash_consumer == "parse_error"
     ok = "#" in opchars or not rejects
@@ -381,7 +409,7 @@ def run(repo, rep, tier):
     pat = None
     for k, v in zip(regex_node.keys, regex_node.values):
         if try_const(k) == '"' and isinstance(v, ast.Call):
-            pat = try_const(v.args[0])
+            pat = try_const(v.args[0], _class_text_constants(repo))
     ok = pat in ('"(?:[^"]*"")*[^"]*"(?!")', '"(?:[^"]|"")*"(?!")')
     rep.ob("C18.R4", regex_node, f"double-quoted literal regex accepts doubled quotes and ends at the closing quote: {pat!r}", ok,
            "" if ok else "the string form the reader prints (quotes doubled) is not matched as a single token", key="C18.R4@string-regex")
@@ -391,7 +419,7 @@ def run(repo, rep, tier):
 
     for k, v in zip(regex_node.keys, regex_node.values):
         delim = try_const(k)
-        patt = try_const(v.args[0]) if isinstance(v, ast.Call) and v.args else None
+        patt = try_const(v.args[0], _class_text_constants(repo)) if isinstance(v, ast.Call) and v.args else None
         if not isinstance(patt, str):
             raise AnalysisError("STRING_REGEXES: pattern is not a literal")
         bad = []
@@ -494,6 +522,7 @@ def reader_glyphs(repo) -> dict:
 
 
 VARIANTS = [
+    M("operator-table-loses-percent", "constants.py", 'OPERATOR_PRECEDENCE = {"%": 6, "^": 5,', 'OPERATOR_PRECEDENCE = {"^": 5,', "C18.R4"),
     M("revert-fix-empty-stack", "tokenizer.py", "        if not self.token_stack:\n            msg = f\"No matching opener for closer at position {self.offset} in '{self.formula}'\"\n            raise TokenizerError(msg)\n", "", "C18.R1"),
     M("two-char-returns-1", "tokenizer.py", "                ),\n            )\n            return 2", "                ),\n            )\n            return 1", "C18.R3"),
     M("opener-keeps-buffer", "tokenizer.py", "            token_value = \"\".join(self.token) + \"(\"\n            del self.token[:]", "            token_value = \"\".join(self.token) + \"(\"", "C18.R3"),
